@@ -167,6 +167,7 @@ pub fn run_dedupe(op: DedupeOp, config: DedupeConfig, log: &dyn Log) -> Result<(
         // would not match the physical size of the file
         dedupe_config.no_check_size |= c.transform.is_some();
         dedupe_config.match_links |= c.match_links;
+        dedupe_config.no_symbolic_links = !c.symbolic_links;
 
         if dedupe_config.rf_over.is_none() {
             dedupe_config.rf_over = Some(c.rf_over())
